@@ -19,7 +19,8 @@ MANIFEST = {
              "every durable step; EVERY transition of that graph is replayed against the real headerfs stores "
              "(real files, real bbolt, faults injected through the File/walletdb.DB interfaces) and the list-refinement, "
              "reopen and failed-append operators of HeaderStoreProps.tla are evaluated by TLC on the observed traces.",
-        note="Bounded: <=5 ids, <=5 operations, <=2 faults. Trusts TLC, the Go projection of the read API to ids, and "
+        note="Thorough additionally replays 6000 walks over 2500 TLC-simulated behaviours of the same spec with 8 ids, "
+             "30 operations, 4 faults (long histories). Bounded: <=5 ids, <=5 operations, <=2 faults in the exhaustive part. Trusts TLC, the Go projection of the read API to ids, and "
              "that I/O errors arrive only through the File / walletdb.DB interfaces. Errors injected into rollbacks are "
              "not judged (the property only speaks about failed appends).",
         design="4 C07", technique="TLA+ spec + TLC exhaustive + spec-to-code replay of every transition + TLC-judged observed traces"),
@@ -52,6 +53,14 @@ CONFIGS = {
     ("C08", "quick"): dict(N=4, MaxLen=4, MaxBatch=2, MaxOps=4, MaxFaults=0, MaxCrashes=2, MaxLegacy=0),
     ("C08", "thorough"): dict(N=5, MaxLen=5, MaxBatch=3, MaxOps=5, MaxFaults=1, MaxCrashes=2, MaxLegacy=1),
 }
+
+# Long histories (thorough tier): `tlc -simulate` on the same specification with larger constants;
+# the behaviours are replayed and judged like the exhaustive graph's paths.
+LONG = {
+    "C07": dict(N=8, MaxLen=8, MaxBatch=3, MaxOps=30, MaxFaults=4, MaxCrashes=0, MaxLegacy=1),
+    "C08": dict(N=8, MaxLen=8, MaxBatch=3, MaxOps=30, MaxFaults=2, MaxCrashes=5, MaxLegacy=1),
+}
+LONG_SIM = dict(num=2500, depth=32, walks=6000)
 
 ASSUMPTIONS = [
     "a crash is process death: every completed write/truncate/bbolt commit is durable, an interrupted "
@@ -110,6 +119,50 @@ def multi_store(tier, seed, t0):
     return rc
 
 
+def long_histories(prop_id, seed, rng, binary, sc):
+    consts = dict(LONG[prop_id])
+    consts.update(CODE_VERSION)
+    tlc = core.run_tlc([SPEC], "HeaderStore", consts, workers=1, workdir=os.path.join(sc, "tlcsim"), timeout=3000,
+                       simulate="num=%d" % LONG_SIM["num"],
+                       cfg_extra="", invariants=["TypeOK"], view=None,
+                       extra_java=["-depth", str(LONG_SIM["depth"]), "-seed", str(seed)])
+    if not tlc.ok:
+        raise core.MachineryError("TLC -simulate on HeaderStore failed: %s\n%s" % (tlc.error, tlc.stdout_tail[-3000:]))
+    g = core.Graph.load(tlc)
+    paths = core.sim_walks(g, LONG_SIM["walks"], LONG_SIM["depth"], rng)
+    pf = os.path.join(sc, "paths_long.ndjson")
+    core.write_paths(g, paths, pf)
+    observed, log = family.run_driver(binary, "TestVerifHeaderStoreReplay", pf, os.path.join(sc, "obs_long.ndjson"), sc)
+    verdict = family.judge([SPEC], "HeaderStoreProps", PROPS[prop_id], prop_id, observed, label=label)
+    dr = family.drift(pf, observed, label=label)
+    rc = 0
+    for v in verdict["violations"][:5]:
+        fn = core.save_replay(prop_id, {"property": prop_id, "props": v["props"], "step": v["step"],
+                                        "labels": v["labels"], "trace": v["observed"], "config": consts})
+        print("VIOLATION property=%s replay=%s" % (prop_id, fn))
+        print("  violated: %s at step %d of (long history): %s" % (",".join(v["props"]), v["step"], " ".join(v["labels"])))
+        rc = 1
+    if dr[1]:
+        import sys
+        print("drift: %d of %d long-history paths left the model's prediction (not a verdict)" % (dr[1], len(observed)),
+              file=sys.stderr)
+    fn = os.path.join(os.environ.get("VERIF_EVIDENCE_DIR", os.path.join(core.VERIF, "evidence")), prop_id + ".json")
+    ev = json.load(open(fn))
+    c = ev["coverage"]
+    steps = sum(len(t["steps"]) for t in observed)
+    c["long_histories_tlc_simulate"] = {
+        "config": consts, "behaviours_simulated": LONG_SIM["num"], "depth": LONG_SIM["depth"],
+        "states": len(g.out), "transitions": len(g.edges), "walks_replayed": len(observed), "replayed_steps": steps,
+        "longest_walk": max([len(t["steps"]) for t in observed] + [0]),
+        "judged_lines_by_tlc": verdict["n_lines"], "drift_paths": dr[1], "new_violations": len(verdict["violations"]),
+        "known_findings_seen": {k: v["count"] for k, v in verdict["known"].items()}}
+    c["traces_validated_against_impl"] += len(observed)
+    ev["violations"] = ev.get("violations", 0) + len(verdict["violations"])
+    json.dump(ev, open(fn + ".tmp", "w"), indent=1)
+    os.replace(fn + ".tmp", fn)
+    return rc
+
+
 def run(prop_id, tier, seed, replay=None):
     t0 = time.time()
     rng = random.Random(seed)
@@ -139,6 +192,8 @@ def run(prop_id, tier, seed, replay=None):
         rc = family.finish(prop_id, tier, seed, t0, tlc, g, paths, observed, verdict, dr,
                            {"config": consts, "edges_only_reachable_through_model_violation": unreach},
                            ASSUMPTIONS, label=label)
+        if tier == "thorough" and not replay:
+            rc = max(rc, long_histories(prop_id, seed, rng, binary, sc))
         if prop_id == "C08" and not replay:
             rc = max(rc, multi_store(tier, seed, t0))
         if prop_id == "C07" and not replay:
